@@ -82,7 +82,7 @@ WATCHDOG_S = {"quick": 400, "thorough": 3000}
 
 N_SHARDS = 16
 N_CASES = {"quick": 208, "thorough": 6000}
-DS_EVERY = 8          # every 8th case reads ds["emodulus"] instead of calling directly
+DS_EVERY = 4          # every 4th case reads ds["emodulus"] instead of calling directly
 
 
 def min_evals(tier):
